@@ -222,8 +222,9 @@ class Interp:
                tuple(sorted(((k, (v[0].describe() if v[0] is not None else None, v[1])) for k, v in (sib or {}).items()), key=repr)), called_conditionally,
                tuple(sorted((k, v.describe()) for k, v in (closure_env or {}).items())) if closure_env else None)
         if key in self.memo:
-            ret, effects = self.memo[key]
+            ret, effects, exit_facts = self.memo[key]
             self.collectors[-1].extend(effects)
+            self.last_exit_facts = exit_facts
             return ret
         st = State()
         st.present |= set(present)
@@ -262,8 +263,17 @@ class Interp:
                 st.env[a.vararg.arg] = AV(["tuple"], elem=join_all(args[len(params):]) if len(args) > len(params) else BOTTOM)
             if a.kwarg:
                 st.env[a.kwarg.arg] = AV(["dict"], vals=join_all([v for k, v in kwargs.items() if k not in params]) or BOTTOM)
+            exit_facts = frozenset()
             fl = self.exec_block(f.body, [st])
             rets = [v for (_s, v) in fl.ret]
+            # what every normal exit of the function knows about parsed URLs (see call_ext): handed back to the caller
+            exits = [x for (x, _v) in fl.ret] + list(fl.next)
+            if exits and not f.is_generator:
+                common = None
+                for x in exits:
+                    mine = {ft for ft in x.present if ft[0] == "__url_ok__" or ft[0].endswith(".__url_ok_if_nonempty__")}
+                    common = mine if common is None else (common & mine)
+                exit_facts = frozenset(common or ())
             if f.is_generator:
                 ret = AV(["gen"], elem=join_all(fl.yields) if fl.yields else BOTTOM)
             elif isinstance(f.node, ast.Lambda):
@@ -278,8 +288,9 @@ class Interp:
             self.cur_func = saved_func
             cstack.pop()
         # contextmanager generators behave like functions returning a context manager
-        self.memo[key] = (ret, effects)
+        self.memo[key] = (ret, effects, exit_facts)
         self.collectors[-1].extend(effects)
+        self.last_exit_facts = exit_facts
         return ret
 
     # ------------------------------------------------------------------ statements
@@ -795,6 +806,13 @@ class Interp:
             return None
         if not truth and not mf:
             return None
+        # `name.startswith("<non-empty text>")` holding: name is not empty (turns "the URL was parsed unless name is empty" into a fact)
+        if truth and isinstance(test, ast.Call) and isinstance(test.func, ast.Attribute) and test.func.attr == "startswith" \
+                and isinstance(test.func.value, ast.Name) and len(test.args) == 1 and isinstance(test.args[0], ast.Constant) \
+                and isinstance(test.args[0].value, str) and test.args[0].value:
+            for (d, k) in list(s.present):
+                if d == test.func.value.id + ".__url_ok_if_nonempty__":
+                    s.present.add(("__url_ok__", k[1]))
         # type(x) is T / is not T / == T: exact class test on a JSON value
         if isinstance(test, ast.Compare) and len(test.ops) == 1 and isinstance(test.ops[0], (ast.Is, ast.IsNot, ast.Eq, ast.NotEq)):
             l, r = test.left, test.comparators[0]
@@ -1699,7 +1717,13 @@ class Interp:
         m = self.calls.method(t, attr) if t in self.calls.type_cls else None
         if m is not None:
             if any(norm(d) == "property" for d in m.decorators):
-                return self.call_func(m, [base], node=node)
+                # "this URL has been parsed on this path" (see call_ext) holds inside the getter as well
+                facts = set()
+                recv = norm(node.value) if isinstance(node, ast.Attribute) else None
+                for f in (s.present if s is not None else ()):
+                    if f[0] == "__url_ok__" and recv is not None and m.params and f[1].startswith(recv + "."):
+                        facts.add(("__url_ok__", m.params[0] + f[1][len(recv):]))
+                return self.call_func(m, [base], node=node, present=frozenset(facts))
             return AV(["func"], const=("bound", m, base))
         if attr == "__class__":
             return AV(["cls:" + t])
